@@ -185,7 +185,7 @@ func c16Run(env *core.Env, idx int) core.CaseResult {
 			sameURLDifferentContent++
 		}
 		lastVersion = v
-		kind := []string{"ExpandSpec", "ExpandSchemaWithBasePath", "ResolveRefWithBase", "ExpandResponse", "ExpandParameter", "meta-schema", "ExpandSchema(typed-root)", "ExpandSpec(shared-options,no-base)"}[rng.Intn(8)]
+		kind := []string{"ExpandSpec", "ExpandSchemaWithBasePath", "ResolveRefWithBase", "ExpandResponse", "ExpandParameter", "meta-schema", "ExpandSchema(typed-root)", "ExpandSpec(shared-options,no-base)", "ExpandSchema(root-with-id)"}[rng.Intn(9)]
 		if kind == "ExpandSpec(shared-options,no-base)" && !o.AbsOnly {
 			kind = "ExpandSpec" // without a base location only absolute and fragment-only references are meaningful
 		}
@@ -405,6 +405,47 @@ func c16Run(env *core.Env, idx int) core.CaseResult {
 				report("result-depends-on-earlier-call", fmt.Sprintf("%s%s: %s (input %s, output %s)", st.Ptr, m.Path, m.Reason, m.A, m.B))
 			}
 			checkLoadedAfresh([]oracle.Child{{St: st, Kind: k}})
+		case "ExpandSchema(root-with-id)":
+			// a recursive schema that names itself with an id living next to the documents of the history: whatever the call
+			// learns about that id must not survive it
+			tag := fmt.Sprintf("v%d-%d", v, step)
+			text := fmt.Sprintf(`{"id":"file:///w/ids/tree-%d.json","title":"tree %s","properties":{"n":{"$ref":"#/definitions/node"}},"definitions":{"node":{"title":"node %s","properties":{"next":{"$ref":"#/definitions/node"}}}}}`, v, tag, tag)
+			s := new(spec.Schema)
+			_ = json.Unmarshal([]byte(text), s)
+			err, pan := guard(func() error { return spec.ExpandSchema(s, nil, nil) })
+			if pan != "" || err != nil {
+				report("call-failed", fmt.Sprintf("%v %s", err, pan))
+				break
+			}
+			out, _ := oracle.Norm(s)
+			// every cycle cut-point left behind is written "#/definitions/node", as a first call in a fresh process writes it
+			var refs []string
+			var collect func(v interface{})
+			collect = func(v interface{}) {
+				switch x := v.(type) {
+				case map[string]interface{}:
+					if r, ok := x["$ref"].(string); ok {
+						refs = append(refs, r)
+					}
+					for _, w := range x {
+						collect(w)
+					}
+				case []interface{}:
+					for _, w := range x {
+						collect(w)
+					}
+				}
+			}
+			collect(out)
+			bad := len(refs) == 0
+			for _, r := range refs {
+				if r != "#/definitions/node" {
+					bad = true
+				}
+			}
+			if bad {
+				report("result-depends-on-earlier-call", fmt.Sprintf("the cycle cut-points of a schema with an id came out as %q (a first call writes \"#/definitions/node\")", refs))
+			}
 		case "meta-schema":
 			// expansions involving the built-in meta-schemas, and their resolution without any loader request
 			var rec []string
@@ -486,7 +527,7 @@ func init() {
 		NumCases: c16NumCases,
 		Run:      c16Run,
 		Floors: func(env *core.Env) []string {
-			return []string{"call.ExpandSpec", "call.ExpandSchemaWithBasePath", "call.ResolveRefWithBase", "call.ExpandResponse", "call.ExpandParameter", "call.meta-schema", "call.ExpandSchema(typed-root)", "call.ExpandSpec(shared-options,no-base)", "calls-with-reused-options",
+			return []string{"call.ExpandSpec", "call.ExpandSchemaWithBasePath", "call.ResolveRefWithBase", "call.ExpandResponse", "call.ExpandParameter", "call.meta-schema", "call.ExpandSchema(typed-root)", "call.ExpandSpec(shared-options,no-base)", "call.ExpandSchema(root-with-id)", "calls-with-reused-options",
 				"quiescent-cache-inspections", "consecutive-calls-on-same-urls-with-different-content"}
 		},
 		ChunkSize:   10,
